@@ -256,6 +256,16 @@ impl Control for NewReno {
     fn process_ecn(&mut self, ack: &AckFrame, sent_time: &Instant, epoch: Epoch) {
         self.process_ecn(ack, sent_time, epoch);
     }
+
+    #[cfg(genmeta_gm_quic_verif)]
+    fn verif_state(&self) -> (u64, u64, u64, Option<Instant>) {
+        (
+            self.congestion_window as u64,
+            self.ssthresh as u64,
+            self.bytes_in_flight as u64,
+            self.congestion_recovery_start_time,
+        )
+    }
 }
 
 /*
